@@ -196,6 +196,16 @@ pub struct Failure
     pub case: Value,
 }
 
+/// A panic escaping the code under test is a failure of the case, never a crash of the run.
+fn guarded_test(f: impl FnOnce() -> Result<(), String>) -> Result<(), String>
+{
+    match super::sched::catch_quiet(f)
+    {
+        Ok(r) => r,
+        Err(m) => Err(format!("panic in the code under test: {}", m)),
+    }
+}
+
 fn rng_for(seed: u64, worker: usize, salt: u64) -> TestRng
 {
     let mut material = vec![];
@@ -254,13 +264,13 @@ where
                     let r = if *failed.borrow()
                     {
                         let mut scratch = Stats::default();
-                        test(&v, &mut scratch)
+                        guarded_test(|| test(&v, &mut scratch))
                     }
                     else
                     {
                         let mut st = stats.borrow_mut();
                         st.evaluations += 1;
-                        test(&v, &mut st)
+                        guarded_test(|| test(&v, &mut st))
                     };
                     match r
                     {
@@ -322,7 +332,7 @@ where
                         break;
                     }
                     st.evaluations += 1;
-                    if let Err(m) = test(&items[i], &mut st)
+                    if let Err(m) = guarded_test(|| test(&items[i], &mut st))
                     {
                         if fails.len() < 3
                         {
